@@ -220,12 +220,8 @@ def run(run):
     cases = [(h, t, n, k) for h in heads for t in tails for (n, k) in layouts]
     run_cases(run, "vf.props.C17", "check_case", cases, {}, chunk=4)
     run_cases(run, "vf.props.C17", "history_case", [(n, p) for n in (2, 4) for p in (None, "stage")], {}, chunk=1)
-    try:
-        from vf.contracts import boundaries
-        from vf.props._p import run_specs
+    from vf.contracts.registry import run_property_specs
 
-        run_specs(run, boundaries.SPECS, "C17")
-    except ImportError:
-        pass
+    run_property_specs(run, "C17")
     run.assume("row order / index labels / partition layout are compared only where the pipeline defines them (joins, shuffles, sorts and repartitions leave the layout open)")
     run.trust("head / tail operator lists in vf/props/C17.py")
